@@ -124,6 +124,18 @@ type v07Cfg struct {
 	deny     []bool   // deny[dest] (nil = everything allowed)
 	sids     []uint32 // session index -> wire session ID
 	randSeed int64
+	// shared: destination strings do not carry the session index, so several sessions talk to the very
+	// same address strings (C08: decision caches keyed by address). The fakes then attribute UDP()/Hook()
+	// to the session of the datagram the receive loop was handed last (feeding is one goroutine).
+	shared      bool
+	denyRewrite []bool // denyRewrite[s]: the policy rejects the address the hook rewrites session s to
+}
+
+func (c v07Cfg) addr(s, dest int) string {
+	if c.shared {
+		return v07Addr(0, dest)
+	}
+	return v07Addr(s, dest)
 }
 
 func (c v07Cfg) String() string {
@@ -133,7 +145,7 @@ func (c v07Cfg) String() string {
 			nd++
 		}
 	}
-	return fmt.Sprintf("idle=%v limit=%d hook=%d sids=%v denied=%d/%d randseed=%d", c.idle, c.limit, c.hookMode, c.sids, nd, len(c.deny), c.randSeed)
+	return fmt.Sprintf("idle=%v limit=%d hook=%d sids=%v denied=%d/%d sharedDestinations=%v rewriteTargetDenied=%v randseed=%d", c.idle, c.limit, c.hookMode, c.sids, nd, len(c.deny), c.shared, c.denyRewrite, c.randSeed)
 }
 
 func v07Addr(s, dest int) string    { return fmt.Sprintf("s%d.d%d.test:%d", s, dest, 1000+dest%50000) }
@@ -157,7 +169,8 @@ func (c v07Cfg) allowed(addr string) bool {
 		return false
 	}
 	if d < 0 {
-		return true
+		s, _, _ := v07ParseAddr(addr)
+		return s >= len(c.denyRewrite) || !c.denyRewrite[s]
 	}
 	return d >= len(c.deny) || !c.deny[d]
 }
@@ -335,6 +348,7 @@ type v07H struct {
 	inbox  chan *v07InMsg
 	lostCh chan struct{}
 	lost   bool
+	curS   int // session index of the datagram handed to the receive loop last
 
 	dialFail, hookFail, writeFail bool
 	sendFail                      map[uint32]bool
@@ -373,6 +387,7 @@ func (io *v07IO) ReceiveMessage() (*protocol.UDPMessage, error) {
 	select {
 	case m := <-h.inbox:
 		h.mu.Lock()
+		h.curS = m.op.s
 		h.logLocked(v07Ev{k: v07EvRecv, msg: m.n, sid: m.sid, pid: m.op.pid, fid: m.op.fragID, fcnt: m.op.fragCount, addr: m.addr, data: m.data})
 		h.mu.Unlock()
 		// what the real udpIOImpl hands over: a freshly parsed message with its own buffer
@@ -436,6 +451,15 @@ func (io *v07IO) SendMessage(buf []byte, m *protocol.UDPMessage) error {
 	return nil
 }
 
+// ownerOf: session index an address passed to Hook()/UDP() belongs to (callers hold h.mu).
+func (h *v07H) ownerOf(addr string) (int, bool) {
+	s, d, ok := v07ParseAddr(addr)
+	if h.cfg.shared && (!ok || d >= 0) {
+		return h.curS, true
+	}
+	return s, ok
+}
+
 func (io *v07IO) Hook(data []byte, reqAddr *string) error { // called under connLock: never parks
 	h := io.h
 	h.mu.Lock()
@@ -447,7 +471,7 @@ func (io *v07IO) Hook(data []byte, reqAddr *string) error { // called under conn
 		h.logLocked(e)
 		return v07ErrInjected
 	}
-	if s, _, ok := v07ParseAddr(*reqAddr); ok && h.cfg.hookRewrites(s) {
+	if s, ok := h.ownerOf(*reqAddr); ok && h.cfg.hookRewrites(s) {
 		*reqAddr = v07RewrittenAddr(s)
 		e.addr2 = *reqAddr
 	}
@@ -460,6 +484,11 @@ func (io *v07IO) UDP(reqAddr string) (UDPConn, error) { // called under connLock
 	h.mu.Lock()
 	defer h.mu.Unlock()
 	e := v07Ev{k: v07EvDial, addr: reqAddr, sock: -1}
+	if o, ok := h.ownerOf(reqAddr); ok {
+		e.pkt = o // owner session index
+	} else {
+		e.pkt = -1
+	}
 	if h.dialFail {
 		h.dialFail = false
 		h.logLocked(e)
@@ -470,6 +499,7 @@ func (io *v07IO) UDP(reqAddr string) (UDPConn, error) { // called under connLock
 		return nil, v07ErrDenied
 	}
 	s := &v07Sock{h: h, id: len(h.socks), dialAddr: reqAddr, in: make(chan *v07Pkt, 256), closedCh: make(chan struct{})}
+	s.owner, _ = h.ownerOf(reqAddr)
 	h.socks = append(h.socks, s)
 	e.sock, e.ok = s.id, true
 	h.logLocked(e)
@@ -506,6 +536,7 @@ type v07Sock struct {
 	h          *v07H
 	id         int
 	dialAddr   string
+	owner      int // session index the socket was dialed for
 	in         chan *v07Pkt
 	closedCh   chan struct{}
 	closeCount int
@@ -913,7 +944,7 @@ func (m *v07Model) step(e v07Ev) string {
 		}
 	case v07EvLogNew:
 	case v07EvDial:
-		s, _, ok := v07ParseAddr(e.addr)
+		s, ok := e.pkt, e.pkt >= 0
 		if !ok || s >= len(m.cfg.sids) {
 			return fmt.Sprintf("UDP() called with an address no datagram carried: %q", e.addr)
 		}
@@ -1305,7 +1336,7 @@ func v07Execute(cfg v07Cfg, ops []v07Op) (res *v07Result, h *v07H, abandon bool)
 		h.mu.Lock()
 		defer h.mu.Unlock()
 		for i := len(h.socks) - 1; i >= 0; i-- {
-			if si, _, ok := v07ParseAddr(h.socks[i].dialAddr); ok && si == s {
+			if h.socks[i].owner == s {
 				return h.socks[i]
 			}
 		}
@@ -1337,7 +1368,7 @@ func v07Execute(cfg v07Cfg, ops []v07Op) (res *v07Result, h *v07H, abandon bool)
 				full = v07Payload('D', op.msgSeq, op.total)
 				fullOf[op.msgSeq] = full
 			}
-			msg := &v07InMsg{op: op, sid: cfg.sids[op.s], addr: v07Addr(op.s, op.dest), full: full, data: full[op.lo:op.hi]}
+			msg := &v07InMsg{op: op, sid: cfg.sids[op.s], addr: cfg.addr(op.s, op.dest), full: full, data: full[op.lo:op.hi]}
 			h.mu.Lock()
 			msg.n = len(h.msgs)
 			h.msgs = append(h.msgs, msg)
@@ -1351,7 +1382,7 @@ func v07Execute(cfg v07Cfg, ops []v07Op) (res *v07Result, h *v07H, abandon bool)
 				break
 			}
 			h.mu.Lock()
-			p := &v07Pkt{n: len(h.pkts), sock: s.id, from: v07Addr(op.s, op.dest)}
+			p := &v07Pkt{n: len(h.pkts), sock: s.id, from: cfg.addr(op.s, op.dest)}
 			p.data = v07Payload('R', p.n, op.size)
 			// what cannot be fragmented into <= 255 pieces is legitimately dropped (C05)
 			if sz := v07WireSize(len(p.from), len(p.data)); sz > cfg.limit {
